@@ -15,7 +15,7 @@ from ..models.mpt import BLANK_ROOT, RefMPT, nibbles_of, rlp_any
 
 ID = "C03"
 LEVEL = "exploration"
-RUNS = {"quick": 5000, "thorough": 60000}
+RUNS = {"quick": 4000, "thorough": 50000}
 RULE = (
     "each run: a non-pruning trie with a seeded history of 4-30 mutations (every root and its contents remembered), a "
     "foreign trie over related keys, and 10-40 proof exchanges at seeded points of the history: the prover calls "
@@ -339,7 +339,7 @@ def gen_fault(rng, pool, probes):
 
 
 def generate(rng):
-    pool = make_pool(rng, size=rng.choice([3, 4, 5, 6, 8, 10, 12, 16, 24]), style="comb" if rng.random() < 0.05 else None)
+    pool = make_pool(rng, size=rng.choice([3, 4, 5, 6, 8, 10, 12, 16, 24]), style=("deepcomb" if rng.random() < 0.08 else "comb") if rng.random() < 0.05 else None)
     values = make_values(rng)
     probes = probe_keys(rng, pool, extra=3)
     g = HistoryGen(rng, pool, values, probes, batches=True, aborts=False, reopen=True, lookups=(0, 0))
@@ -349,18 +349,26 @@ def generate(rng):
         if rng.random() < 0.6:
             foreign.append([hx(k), hx(rng.choice(values) if rng.random() < 0.5 else rng.choice(values) + b"\x01")])
     n_ex = rng.choice([10, 20, 40])
+    deep_pool = len(pool) > 200
+    if deep_pool:
+        n_ex = 5
+        hist = hist[: len(pool) + 4]
     cmds = list(hist)
     for _ in range(n_ex):
         pos = rng.randrange(len(cmds) // 3, len(cmds) + 1)
         r = rng.random()
         present = sorted(g.present)
         k = rng.choice(present) if present and r < 0.35 else (rng.choice(pool) if r < 0.6 else rng.choice(probes))
+        if deep_pool:
+            # the deepest paths: the spine key itself and keys leaving it near its end
+            pos = len(cmds)
+            k = rng.choice([pool[0], pool[0], pool[-1], pool[-2], pool[0][:-1] + bytes([pool[0][-1] ^ 1])])
         c = {"op": "prove", "k": hx(k)}
         if rng.random() < 0.3:
             c["root"] = rng.randrange(1000)
-        if rng.random() < 0.6:
+        if rng.random() < 0.6 and not deep_pool:
             c["drop_each"] = 1
-        c["deliveries"] = [[gen_fault(rng, pool, probes) for _ in range(rng.choice([1, 1, 2, 3, 4]))] for _ in range(rng.choice([1, 2, 4]))]
+        c["deliveries"] = [[gen_fault(rng, pool, probes) for _ in range(rng.choice([1, 1, 2, 3, 4]))] for _ in range(rng.choice([1, 2, 4]) if not deep_pool else 1)]
         cmds.insert(pos, c)
     return {"prop": ID, "cfg": {"prune": False, "cache": 4096, "foreign": foreign, "store": rng.choice(["min", "min", "dict"])}, "cmds": cmds}
 
